@@ -7,7 +7,7 @@ from ..common import weighted
 
 PLAN = {
     "quick": {"shards": 8, "cases": 2000, "min_nontrivial": 8000, "budget_s": 300},
-    "thorough": {"shards": 16, "cases": 4000, "min_nontrivial": 5000, "budget_s": 1200},
+    "thorough": {"shards": 16, "cases": 40000, "min_nontrivial": 224000, "budget_s": 1500},
 }
 RULE = ("cases are (kind, 32-byte key class, plaintext bytes, method) drawn from boundary lengths 0-80/1000 and "
         "key classes random/zero/ff/one-bit; kinds: session (2-11 mixed encrypt/decrypt operations with mixed methods inside one open, nested key context, each judged), roundtrip (oracle decrypts library output and library decrypts "
